@@ -34,16 +34,28 @@ Clause -> oracle -> domain
   U  an unused supplied value makes serialisation fail with UnusedTargetError: a spare key in the root / a
      nested / a list-element description, or one extra element in a list of values / sub-descriptions /
      computed values.
+  W  wrong shape.  A non-list (0, 1, None, False, True, b"", b"x", empty / non-empty bitarray, "", "x", {}, a dict, a
+     float, tuples) supplied for a target the program declares as a list -> ListTargetContainsNonListError (documented),
+     whatever the number of uses.  A list / dict / tuple supplied for an integer target (nbits, uint_lit, uint, sint) or as
+     an element of an integer list target; a non-dict (0, 1, None, False, True, b"x", "x", bitarray, [1], float, tuple)
+     supplied for a sub-description (plain target or list element): the documentation names no exception, so the oracle
+     is the statement's: serialisation must raise, or else the written bytes must deserialise to the supplied description.
+     Not asserted, only tallied (documentation silent, the io layer is duck-typed / the dict constructor accepts them):
+     containers for bool / bitarray / bytes targets, empty iterables (b"", "", bitarray(), [], ()) for a sub-description.
+     At every node of the tree (root, nested, list-held).
   M  a missing needed value makes serialisation fail with KeyError (plain target) or
      ListTargetExhaustedError (list target): one leaf removed, a list shortened by its last element or
      removed as a whole; only leaves for which no default applies (defaults of *other* types are present).
   X  re-use: an extra use (primitive / declare_list / subcontext / computed value) of an already used plain
      target, or declare_list of a declared list, injected at a random point of the run, raises
-     ReusedTargetError at that very statement, and (Deserialiser) leaves the description read so far unchanged.
+     ReusedTargetError at that very statement, and (Deserialiser) leaves the description read so far unchanged.  The
+     same injected program is run on both sides and both must reject it.  Second variant: the re-used target is one that
+     is absent from the supplied description because a default_values entry applies (second use, declare_list, subcontext,
+     computed value after the use that took the default).
 Domains
   random: seeded programs (statement budget 6..30 quick, ..60 thorough; nesting depth <= 3/4; loop counts
           <= 3; bounded block lengths 0..40 bits), QUICK_CASES / THOROUGH_CASES of them, each with 2 R, 2 U,
-          2 M and 2 X experiments.
+          2 W, 2 M and 2 X experiments (an X experiment = Serialiser run + Deserialiser run).
   exhaustive: ALL valid statement sequences of length <= 3 (quick) / <= 4 (thorough) over the 16 statement
           templates in TEMPLATES (values seeded), same experiments.
 Every random choice derives from `seed`; case i of a domain can be re-run alone:
@@ -59,9 +71,9 @@ import sys
 import time
 import traceback
 
-QUICK_CASES = 30000
-THOROUGH_CASES = 500000
-WORKERS = 8
+QUICK_CASES = 20000
+THOROUGH_CASES = 200000
+WORKERS = 6
 
 # ======================================================================================================
 # target names: the name fixes the primitive (so that one default value per (type, name) is well-typed)
@@ -538,7 +550,7 @@ class RefWalk(object):
         self.rem = None     # bits left in the current bounded block (may go negative), None outside
         self.env = {}
         self.k = 0          # statement executions so far (kept in step with Runner.k)
-        self.trace = []     # (k, plain targets used so far in the current description, its declared lists)
+        self.trace = []     # (k, plain targets used so far in the current description, its declared lists, that description's node)
         self.root = Ctx()
         self.overruns = 0   # values that straddle / lie past the end of a bounded block
         self.nvalues = 0
@@ -583,7 +595,7 @@ class RefWalk(object):
 
     def stmt(self, s, ctx):
         self.k += 1
-        self.trace.append((self.k, tuple(n for n in ctx.entries if not n.endswith("L")), tuple(n for n in ctx.entries if n.endswith("L"))))
+        self.trace.append((self.k, tuple(n for n in ctx.entries if not n.endswith("L")), tuple(n for n in ctx.entries if n.endswith("L")), ctx))
         op = s[0]
         if op == "prim":
             v = self.value(ctx, s[2], s[1], s[3])
@@ -697,7 +709,7 @@ def comp_supply(rng, leaf):
     return _NOPE if r < 0.4 else rng.choice(["junk", -1, None, leaf.value]) if r < 0.85 else leaf.value
 
 
-def provide(ctx, rng, mode, omit, omitted, drop=None):
+def provide(ctx, rng, mode, omit, omitted, drop=None, omit_p=0.7):
     """The description handed to the Serialiser.  mode: raw | typed | mixed (per node).  omit: leave out values
     equal to the applicable default (recorded in `omitted`).  drop: a Leaf / Lst to leave out (clause M)."""
     cls = node_cls(ctx, mode, rng)
@@ -710,7 +722,7 @@ def provide(ctx, rng, mode, omit, omitted, drop=None):
                     d[name] = v
             elif item is drop:
                 pass
-            elif omit and omittable(item, cls) and rng.random() < 0.7:
+            elif omit and omittable(item, cls) and rng.random() < omit_p:
                 omitted.add(id(item))
             else:
                 d[name] = item.value
@@ -718,7 +730,7 @@ def provide(ctx, rng, mode, omit, omitted, drop=None):
             if omit and fully_omittable(item) and rng.random() < 0.5:
                 mark_omitted(item, omitted)
             else:
-                d[name] = provide(item, rng, mode, omit, omitted, drop)
+                d[name] = provide(item, rng, mode, omit, omitted, drop, omit_p)
         elif item is drop:
             pass
         else:
@@ -730,7 +742,7 @@ def provide(ctx, rng, mode, omit, omitted, drop=None):
                 while omit and keep > 0 and fully_omittable(items[keep - 1]) and rng.random() < 0.6:
                     keep -= 1
                     mark_omitted(items[keep], omitted)
-                lst = [provide(c, rng, mode, omit, omitted, drop) for c in items[:keep]]
+                lst = [provide(c, rng, mode, omit, omitted, drop, omit_p) for c in items[:keep]]
             elif items[0].computed:
                 keep = rng.randint(0, keep)
                 lst = [rng.choice(["junk", it.value]) for it in items[:keep]]
@@ -738,7 +750,7 @@ def provide(ctx, rng, mode, omit, omitted, drop=None):
                 if items[-1] is drop:
                     keep -= 1
                 else:
-                    while omit and keep > 0 and omittable(items[keep - 1], cls) and rng.random() < 0.7:
+                    while omit and keep > 0 and omittable(items[keep - 1], cls) and rng.random() < omit_p:
                         keep -= 1
                         omitted.add(id(items[keep]))
                 lst = [it.value for it in items[:keep]]
@@ -952,7 +964,7 @@ def exc_str(run):
 # ======================================================================================================
 # one case = one program + one reference walk + the experiments of every clause
 # ======================================================================================================
-CLAUSES = ("R", "U", "M", "X")
+CLAUSES = ("R", "U", "W", "M", "X")
 
 
 class Acc(object):
@@ -1107,39 +1119,165 @@ def run_case(prog, rng, acc, ident, verbose=False):
         if not ok:
             acc.fail("M", ident, prog, "serialisation of a description lacking a needed value (no default applies) must fail", want, exc_str(rs) or "no exception", exp_info, provided)
 
-    # ---------------------------------------------------------------- X: re-use of a target
-    points = [t for t in walk.trace if t[1] or t[2]]
-    for side in ("des", "ser"):
-        if not points or (side == "des" and data_ok is None):
-            continue
-        k, plains, lists = rng.choice(points)
-        if plains and (not lists or rng.random() < 0.75):
-            inj = (k, rng.choice(["bool", "uint", "nbits", "list", "sub", "comp"]), rng.choice(plains))
+    # ---------------------------------------------------------------- W: a supplied value of the wrong shape
+    int_leaves = [(p, n, it) for p, c in nodes for n, it in c.entries.items() if isinstance(it, Leaf) and not it.computed and cat_of(n) == "prim" and PRIMS[n][0] in INT_SHAPED]
+    int_lists = [(p, n, it) for p, n, it in lsts if it.items and cat_of(n) == "prim" and PRIMS[base_of(n)][0] in INT_SHAPED]
+    duck_leaves = [(p, n, it) for p, c in nodes for n, it in c.entries.items() if isinstance(it, Leaf) and not it.computed and cat_of(n) == "prim" and PRIMS[n][0] not in INT_SHAPED]
+    subs = [(p, c) for p, c in nodes if p]
+    for _ in range(2):
+        forms = (["list<-nonlist"] * 3 if lsts else []) + (["int<-container"] if int_leaves else []) + (["intelem<-container"] if int_lists else []) + \
+                (["sub<-nondict"] * 2 if subs else []) + (["sub<-emptyiterable"] if subs and rng.random() < 0.3 else []) + (["duck<-container"] if duck_leaves and rng.random() < 0.3 else [])
+        if not forms:
+            break
+        form = rng.choice(forms)
+        mode = rng.choice(["raw", "typed", "mixed"])
+        provided = provide(root, rng, mode, False, set())
+        want, conclusive = None, True
+        if form == "list<-nonlist":
+            p, name, lst = rng.choice(lsts)
+            v = rng.choice([0, 1, None, False, True, b"", b"x", BA(), BA("1"), "", "x", {}, {"zz0": 1}, 2.5, (), (1,)])
+            nav(provided, p)[name] = v
+            loc = p + ((name, None),)
+            want = S.exc.ListTargetContainsNonListError
+            where = "list target %r (used %d times) of the description at %r" % (name, len(lst.items), list(p))
+        elif form == "int<-container":
+            p, name, leaf = rng.choice(int_leaves)
+            v = rng.choice([[], [leaf.value], [1, 2], {}, {"zz0": 1}, (3,)])
+            nav(provided, p)[name] = v
+            loc = p + ((name, None),)
+            where = "integer target %r of the description at %r" % (name, list(p))
+        elif form == "intelem<-container":
+            p, name, lst = rng.choice(int_lists)
+            i = rng.randrange(len(lst.items))
+            v = rng.choice([[], [lst.items[i].value], {}, {"zz0": 1}])
+            nav(provided, p)[name][i] = v
+            loc = p + ((name, i),)
+            where = "element %d of integer list target %r of the description at %r" % (i, name, list(p))
+        elif form == "duck<-container":
+            # bool / bitarray / bytes targets: the io layer is duck-typed (any truthy object, any sequence of bits / of byte values); documentation silent
+            p, name, leaf = rng.choice(duck_leaves)
+            v = rng.choice([[], [1], {}, {"zz0": 1}])
+            nav(provided, p)[name] = v
+            loc = p + ((name, None),)
+            conclusive = False
+            where = "%s target %r of the description at %r" % (PRIMS[name][0], name, list(p))
         else:
-            inj = (k, "list", rng.choice(lists))
-        exp_info = {"clause": "X", "side": side, "before_statement_execution": k, "injected": "%s on already used target %r" % (inj[1], inj[2])}
-        if side == "des":
-            r = run_des(prog, data_ok + b"\xff" * 8, inj=inj)
-            provided = None
-        else:
-            provided = provide(root, rng, rng.choice(["raw", "typed", "mixed"]), False, set())
-            r = run_ser(prog, provided, None, inj=inj)
-        acc.execs["X"] += 1
+            p, c = rng.choice(subs)
+            if form == "sub<-emptyiterable":
+                # an empty iterable is what the dict constructor / the completeness loop take for an empty description; documentation silent
+                v = rng.choice([b"", "", BA(), [], ()])
+                conclusive = False
+            else:
+                v = rng.choice([0, 1, None, False, True, b"x", "x", BA("1"), [1], 2.5, (1,)])
+            holder = nav(provided, p[:-1])
+            if p[-1][1] is None:
+                holder[p[-1][0]] = v
+            else:
+                holder[p[-1][0]][p[-1][1]] = v
+            loc = p
+            where = "sub-description at %r" % (list(p),)
+        exp_info = {"clause": "W", "mode": mode, "form": form, "wrong_value": repr(v), "where": where}
+        rs = run_ser(prog, provided, DEFAULTS if rng.random() < 0.5 else None)
+        acc.execs["W"] += 1
+        outcome = exc_str(rs) or "no exception"
+        lost = None
+        if rs.exc is None:
+            rd = run_des(prog, rs.data)
+            acc.execs["W"] += 1
+            if rd.exc is not None:
+                lost = "the Deserialiser then rejects the written bytes: " + exc_str(rd)
+            else:
+                try:
+                    back = nav(rd.sd.context, loc)
+                except (KeyError, IndexError, TypeError):  # the checker's own navigation of the deserialised tree
+                    back = "<nothing>"
+                if not _same_plain(back, v):
+                    lost = "deserialising the written bytes gives %r at that place" % (back,)
         if verbose:
-            print("X %s %s -> %s" % (side, exp_info["injected"], exc_str(r)))
-        if not r.runner.fired:
-            # the reference walk reaches statement execution k; the real run did not: it raised earlier, or its primitives returned
-            # other values than the described ones so that the program took another path
-            acc.fail("X", ident, prog, "the run of a valid program on a valid description/stream did not reach the statement execution at which the second use was injected",
-                     "same control flow as the reference walk, no exception before the injected statement",
-                     (exc_str(r) + "\n" + r.tb) if r.exc is not None else "run ended without exception after %d statement executions; variables %r, expected %r" % (r.runner.k, r.runner.env, walk.env),
-                     exp_info, provided)
-        elif not (isinstance(r.exc, S.exc.ReusedTargetError) and r.runner.in_inj):
-            acc.fail("X", ident, prog, "using an already used target again must raise ReusedTargetError at that statement", "ReusedTargetError at the injected statement",
-                     (exc_str(r) or "no exception") + ("" if r.runner.in_inj else " (raised later, the second use was accepted)"), exp_info, provided)
-        elif side == "des" and diff(plain(r.sd.context), r.runner.snap) is not None:
-            acc.fail("X", ident, prog, "the rejected second use of a target changed the description deserialised so far", repr(r.runner.snap)[:2000],
-                     diff(plain(r.sd.context), r.runner.snap), exp_info, provided)
+            print("W %s %r at %s -> %s%s" % (form, v, where, outcome, "; " + lost if lost else ""))
+        if not conclusive:
+            acc.bump("W inconclusive (documentation silent, not asserted): %s -> %s" % (form, "raised" if rs.exc is not None else "accepted, round trip differs" if lost else "accepted, round trip equal"))
+            continue
+        acc.bump("W %s" % form)
+        if want is not None:
+            if not isinstance(rs.exc, want):
+                acc.fail("W", ident, prog, "a non-list value supplied for a target the program declares as a list must be rejected with ListTargetContainsNonListError",
+                         "ListTargetContainsNonListError", outcome + ("; " + lost if lost else ""), exp_info, provided)
+        elif rs.exc is None and lost:
+            acc.fail("W", ident, prog, "serialisation of a description holding a value of the wrong shape reported success although the value is not what the bytes describe",
+                     "an exception, or bytes that deserialise to the supplied description", "no exception; " + lost, exp_info, provided)
+
+    # ---------------------------------------------------------------- X: re-use of a target
+    # the same injected program is run on both sides; both must reject it, at the injected statement
+    points = [t for t in walk.trace if t[1] or t[2]]
+    for variant in ("any", "defaulted"):
+        if not points or data_ok is None:
+            continue
+        if variant == "any":
+            k, plains, lists, _c = rng.choice(points)
+            if plains and (not lists or rng.random() < 0.75):
+                inj = (k, rng.choice(["bool", "uint", "nbits", "list", "sub", "comp"]), rng.choice(plains))
+            else:
+                inj = (k, "list", rng.choice(lists))
+            provided = provide(root, rng, rng.choice(["raw", "typed", "mixed"]), False, set())
+            dflt = DEFAULTS if rng.random() < 0.3 else None
+        else:
+            # a plain target that is absent from the supplied description because a default applies: its second use / declare_list / ... after
+            # the use that took the default must be rejected like any other
+            omitted = set()
+            mode = rng.choice(["raw", "typed", "mixed"])
+            provided = provide(root, rng, mode, True, omitted, None, 1.0)
+            cands = [(k, n, c) for k, plains, lists, c in points for n in plains if isinstance(c.entries[n], Leaf) and id(c.entries[n]) in omitted]
+            if not cands:
+                continue
+            k, n, c = rng.choice(cands)
+            kind = PRIMS[n][0]
+            inj = (k, rng.choice(["same", "same", "list", "list", "sub", "comp", "uint"]), n)
+            if inj[1] == "same":
+                inj = (k, kind if kind in ("bool", "uint", "sint") else "nbits", n)
+            dflt = DEFAULTS
+            acc.bump("re-use injected on a target filled from default_values")
+        exp_info = {"clause": "X", "variant": variant, "before_statement_execution": k, "injected": "%s on already used target %r" % (inj[1], inj[2]), "default_values": dflt is not None}
+        runs = {"ser": run_ser(prog, provided, dflt, inj=inj)}
+        acc.execs["X"] += 1
+        # bytes for the Deserialiser: what the Serialiser wrote if it accepted the program, else the stream of the valid program
+        data = runs["ser"].data if runs["ser"].exc is None else data_ok
+        runs["des"] = run_des(prog, data + b"\xff" * 8, inj=inj)
+        acc.execs["X"] += 1
+        verdict = {}
+        for side in ("ser", "des"):
+            r = runs[side]
+            verdict[side] = "rejected" if (r.runner.fired and isinstance(r.exc, S.exc.ReusedTargetError) and r.runner.in_inj) else \
+                "not reached: " + (exc_str(r) or "run ended") if not r.runner.fired else "accepted" if r.exc is None else "accepted, later: " + exc_str(r)
+        if verbose:
+            print("X %s %s -> ser %s / des %s" % (variant, exp_info["injected"], verdict["ser"], verdict["des"]))
+        for side in ("ser", "des"):
+            r = runs[side]
+            if not r.runner.fired:
+                # the reference walk reaches statement execution k; the real run did not: it raised earlier, or its primitives returned
+                # other values than the described ones so that the program took another path
+                acc.fail("X", ident, prog, "the run of a valid program on a valid description/stream did not reach the statement execution at which the second use was injected (%s)" % side,
+                         "same control flow as the reference walk, no exception before the injected statement",
+                         (exc_str(r) + "\n" + r.tb) if r.exc is not None else "run ended without exception after %d statement executions; variables %r, expected %r" % (r.runner.k, r.runner.env, walk.env),
+                         dict(exp_info, side=side), provided)
+                break
+            if verdict[side] != "rejected":
+                acc.fail("X", ident, prog, "using an already used target again must raise ReusedTargetError at that statement, in the Serialiser and in the Deserialiser alike",
+                         "ReusedTargetError at the injected statement on both sides", "Serialiser: %s; Deserialiser: %s" % (verdict["ser"], verdict["des"]), dict(exp_info, side=side), provided)
+                break
+            if side == "des" and diff(plain(r.sd.context), r.runner.snap) is not None:
+                acc.fail("X", ident, prog, "the rejected second use of a target changed the description deserialised so far", repr(r.runner.snap)[:2000],
+                         diff(plain(r.sd.context), r.runner.snap), dict(exp_info, side=side), provided)
+
+
+INT_SHAPED = ("nbits", "uint_lit", "uint", "sint")
+
+
+def _same_plain(a, b):
+    try:
+        return bool(plain(a) == plain(b))
+    except Exception:  # comparison of ill-shaped values (this is the checker's own comparison, not the code under check)
+        return False
 
 
 def case_program(domain, idx, seed, tier, rng):
@@ -1200,7 +1338,8 @@ def check(rep, tier, seed):
     names = {"R": "round trip (serialise, deserialise with the same program; tree retyped consistently; never overwrites)",
              "U": "an unused supplied value makes serialisation fail (UnusedTargetError)",
              "M": "a missing needed value makes serialisation fail (KeyError / ListTargetExhaustedError)",
-             "X": "a second use of a target raises ReusedTargetError and changes nothing"}
+             "W": "a supplied value of the wrong shape is rejected (non-list for a list target: ListTargetContainsNonListError), never silently dropped",
+             "X": "a second use of a target (incl. one filled from default_values) raises ReusedTargetError in Serialiser and Deserialiser alike and changes nothing"}
     domains = {"random": "seeded random programs: %d programs (statement budget %s, nesting <= %d, loop counts <= 3, bounded blocks 0..40 bits), seed %d; "
                          "per program 2 experiments of this clause" % (nrand, "6..30" if tier == "quick" else "6..60", 3 if tier == "quick" else 4, seed),
                "exhaustive": "exhaustive: all %d valid statement sequences of length <= %d over the %d templates (values seeded); per program 2 experiments of this clause"
